@@ -581,7 +581,7 @@ func TestC17_Lengths(t *testing.T) {
 		if a.code == 119 {
 			// search lists longer than one option instance: pointers to offsets around the powers of two, and many
 			// short names that add up far beyond 255 octets
-			for _, lb := range append(pointerOffsetBuffers(), labelCumulativeBuffers()...) {
+			for _, lb := range append(append(pointerOffsetBuffers(), labelCumulativeBuffers()...), labelEdgeBuffers()...) {
 				if len(lb) <= 4200 {
 					c17.one(t, c17Case{Acc: a.name, State: 0, Val: lb})
 				}
